@@ -173,6 +173,46 @@ func randOwn(g *vlib.Rng, pubs [][]byte) []byte {
 	return ownScript(kind, pub)
 }
 
+// aliasKinds: scripts of ANOTHER template that merely carry one of the wallet's 20-byte hashes (or 20 zero bytes, the
+// Hash160 field of a witness-program address in bech32 / tap mode). Anybody can create them; the wallet must not treat
+// them as its own (finding F1 of the second audit: before the fix pkscr_to_key / hash_to_key_idx matched the 20 bytes
+// against keys[i].Hash160 AND segwit[i].Hash160 whatever the template, and the P2SH test did not read byte 1).
+var aliasKinds = []string{"p2sh-of-keyhash", "p2pkh-of-scripthash", "p2wpkh-of-scripthash", "p2pkh-zero", "p2wpkh-zero", "p2sh-zero",
+	"p2sh-badlen-scripthash", "p2sh-badlen-keyhash"}
+
+func aliasScript(kind string, pub []byte) []byte {
+	kh := h160(pub)
+	sh := h160(scrP2WPKH(kh))
+	zero := make([]byte, 20)
+	switch kind {
+	case "p2sh-of-keyhash":
+		return scrP2SH(kh)
+	case "p2pkh-of-scripthash":
+		return scrP2PKH(sh)
+	case "p2wpkh-of-scripthash":
+		return scrP2WPKH(sh)
+	case "p2pkh-zero":
+		return scrP2PKH(zero)
+	case "p2wpkh-zero":
+		return scrP2WPKH(zero)
+	case "p2sh-zero":
+		return scrP2SH(zero)
+	case "p2sh-badlen-scripthash": // a9 <not 0x14> <script hash> 87: 23 bytes, not a P2SH script
+		s := scrP2SH(sh)
+		s[1] = 0x15
+		return s
+	case "p2sh-badlen-keyhash":
+		s := scrP2SH(kh)
+		s[1] = 0x4c
+		return s
+	}
+	panic("alias kind " + kind)
+}
+
+func randAlias(g *vlib.Rng, pubs [][]byte) []byte {
+	return aliasScript(aliasKinds[g.Intn(len(aliasKinds))], pubs[g.Intn(len(pubs))])
+}
+
 func randScript(g *vlib.Rng, kind string) []byte {
 	switch kind {
 	case "p2pkh":
@@ -271,13 +311,25 @@ func genPlans(g *vlib.Rng, pubs [][]byte, n int) []coinPlan {
 	for i := 0; i < n; i++ {
 		var sc []byte
 		if g.Chance(1, 6) {
-			sc = randScript(g, destKinds[g.Intn(5)]) // foreign
+			if g.Chance(1, 3) {
+				sc = randAlias(g, pubs) // foreign, but carrying one of the wallet's hashes in another template
+			} else {
+				sc = randScript(g, destKinds[g.Intn(5)]) // foreign
+			}
 		} else {
 			sc = randOwn(g, pubs)
 		}
 		ps = append(ps, coinPlan{sc, pickValue(g)})
 	}
 	return ps
+}
+
+func make32(b byte) []byte {
+	o := make([]byte, 32)
+	for i := range o {
+		o[i] = b
+	}
+	return o
 }
 
 func addrOf(scr []byte, testnet bool) string {
@@ -291,6 +343,11 @@ func addrOf(scr []byte, testnet bool) string {
 func destScript(g *vlib.Rng, pubs [][]byte) []byte {
 	if g.Chance(1, 5) {
 		return randOwn(g, pubs)
+	}
+	if g.Chance(1, 12) {
+		if sc := randAlias(g, pubs); addrOf(sc, false) != "" { // payable by address (the bad-length forms have none)
+			return sc
+		}
 	}
 	return randScript(g, destKinds[g.Intn(len(destKinds))])
 }
@@ -581,7 +638,10 @@ func edge32(g *vlib.Rng) uint32 {
 	}
 }
 
-func genRaw(g *vlib.Rng, name string, w *WCfg) *Case {
+func genRaw(g *vlib.Rng, name string, w *WCfg) *Case { return genRawP(g, name, w, nil) }
+
+// genRawP: plans == nil = random balance folder
+func genRawP(g *vlib.Rng, name string, w *WCfg, plans []coinPlan) *Case {
 	c := &Case{Name: name, Kind: "raw", Valid: true, Apply: true}
 	if w != nil {
 		c.W = *w
@@ -593,7 +653,10 @@ func genRaw(g *vlib.Rng, name string, w *WCfg) *Case {
 		fmt.Println("INFRA:", err)
 		os.Exit(3)
 	}
-	genBalance(g, c, pubs, genPlans(g, pubs, 2+g.Intn(6)))
+	if plans == nil {
+		plans = genPlans(g, pubs, 2+g.Intn(6))
+	}
+	genBalance(g, c, pubs, plans)
 	tx := new(btc.Tx)
 	tx.Version = uint32(g.Pick(1, 2, 2, 3))
 	if g.Chance(1, 4) {
@@ -789,6 +852,44 @@ func corpus() []*Case {
 		wr := WCfg{Type: 3, Atype: at, Keycnt: 3, Pass: "corpus pass"}
 		wr.Others = genOthers(g, false, 2, 1)
 		cs = append(cs, genRaw(g, "corpus/raw-others-"+at, &wr))
+	}
+	// cross-template aliases (second audit, F1): for every atype and every alias form of key 1, the alias as the FIRST
+	// listed line (where the default change address is taken from) followed by one own coin of every type; spend
+	// everything (-useallinputs), default change; plus one run paying TO an alias (it must not be booked as own) and
+	// a raw transaction spending alias and own outputs side by side. Witness of the audit's case: p2sh-of-keyhash, p2kh.
+	for _, at := range atypes {
+		wa := WCfg{Type: 3, Atype: at, Keycnt: 4, Pass: "corpus pass"}
+		pa, err := walletPubkeys(&wa)
+		if err != nil {
+			fmt.Println("INFRA:", err)
+			os.Exit(3)
+		}
+		for _, ak := range aliasKinds {
+			plans := []coinPlan{{aliasScript(ak, pa[1]), 300000}}
+			for k, kind := range ownKinds {
+				plans = append(plans, coinPlan{ownScript(kind, pa[k]), uint64(400000 + 100000*k)})
+			}
+			op := defOpts()
+			op.w, op.plans, op.useAll, op.mode, op.ndest, op.change, op.useBatch, op.subfee, op.apply, op.msgLen, op.fee = &wa, plans, 1, 3, 1, 0, 0, 0, 1, 0, 1000
+			cs = append(cs, genSend(g, fmt.Sprintf("corpus/alias-%s-%s-first", ak, at), op))
+			op.useAll = 0 // the audit's shape: the first listed coin alone would cover the payment
+			op.plans = []coinPlan{{aliasScript(ak, pa[0]), 300000}, {ownScript("p2wpkh", pa[1]), 400000}, {ownScript("p2tr", pa[2]), 500000},
+				{ownScript("p2pkh", pa[3]), 600000}}
+			c := genSend(g, fmt.Sprintf("corpus/alias-%s-%s-coin", ak, at), op)
+			c.Send = []Dest{{Addr: addrOf(scrP2TR(make32(0xee)), false), AmtStr: "0.001", Script: hex.EncodeToString(scrP2TR(make32(0xee))), Amount: 100000}}
+			c.UseSend, c.UseBatch, c.Batch = true, false, nil
+			cs = append(cs, c)
+			// -raw: the alias next to own outputs; the wallet must leave the alias input unsigned
+			cs = append(cs, genRawP(g, fmt.Sprintf("corpus/alias-%s-%s-raw", ak, at), &wa,
+				[]coinPlan{{aliasScript(ak, pa[1]), 300000}, {ownScript("p2pkh", pa[0]), 400000}, {ownScript("p2tr", pa[2]), 500000}, {aliasScript(ak, pa[3]), 600000}}))
+			if sc := aliasScript(ak, pa[2]); addrOf(sc, false) != "" { // pay TO the alias
+				op.plans = []coinPlan{{ownScript("p2pkh", pa[0]), 900000}}
+				c2 := genSend(g, fmt.Sprintf("corpus/alias-%s-%s-dest", ak, at), op)
+				c2.Send = []Dest{{Addr: addrOf(sc, false), AmtStr: "0.001", Script: hex.EncodeToString(sc), Amount: 100000}}
+				c2.UseSend, c2.UseBatch, c2.Batch = true, false, nil
+				cs = append(cs, c2)
+			}
+		}
 	}
 	w := WCfg{Type: 3, Atype: "p2kh", Keycnt: 4, Pass: "corpus pass"}
 	pubs, _ := walletPubkeys(&w)
